@@ -17,7 +17,7 @@ TRANSLATED = {
     'C07': '_propagate_MCMC_step, _propagate_MCMC, _get_cummat', 'C08': '_estimate_waiting_times, _estimate_transition_times (msm), _get_cummat',
     'C13': '_intersect, _intersect_array, _compare_trajs_symmetric, _compare_trajs_directed',
     'C14': 'is_quadratic, is_transition_matrix, is_ergodic, is_fuzzy_ergodic, ergodic_mask',
-    'C04': 'is_ergodic, ergodic_mask, row_normalize_matrix', 'C03': 'LumpedStateTraj._estimate_markov_model (Hummer-Szabo projection), row_normalize_matrix, is_ergodic',
+    'C04': 'equilibrium_population (LAPACK eigen-solver as an oracle with the contract v M = v, v != 0), is_ergodic, ergodic_mask, row_normalize_matrix', 'C03': 'LumpedStateTraj._estimate_markov_model (Hummer-Szabo projection), row_normalize_matrix, is_ergodic',
     'C09': '_calc_times', 'C19': '_split_array',
 }
 
